@@ -49,6 +49,27 @@ Proof. intros. unfold p_put. simpl. rewrite xroot_eqb_refl. reflexivity. Qed.
 Lemma p_get_put_other : forall p r x v, xroot_eqb r x = false -> p_get (p_put p x v) r = p_get p r.
 Proof. intros. unfold p_put. simpl. rewrite H. apply p_get_del_other. exact H. Qed.
 
+Lemma put_absent_some : forall p r v w, p_get p r = Some w -> p_put_absent p r v = p.
+Proof. intros p r v w H. unfold p_put_absent. rewrite H. reflexivity. Qed.
+
+Lemma put_absent_none : forall p r v, p_get p r = None -> p_put_absent p r v = p_put p r v.
+Proof. intros p r v H. unfold p_put_absent. rewrite H. reflexivity. Qed.
+
+(** after LoadOrStore the key is present *)
+Lemma p_get_put_absent_same : forall p r v, p_get (p_put_absent p r v) r <> None.
+Proof.
+  intros p r v. unfold p_put_absent. destruct (p_get p r) as [w|] eqn:E.
+  - rewrite E. discriminate.
+  - rewrite p_get_put_same. discriminate.
+Qed.
+
+Lemma p_get_put_absent_other : forall p r x v, xroot_eqb r x = false ->
+  p_get (p_put_absent p x v) r = p_get p r.
+Proof.
+  intros p r x v H. unfold p_put_absent. destruct (p_get p x); [reflexivity|].
+  apply p_get_put_other. exact H.
+Qed.
+
 (** ** invariants *)
 
 (** every stored node is a node of an ordered tree with correct heights and sizes *)
@@ -216,6 +237,12 @@ Proof.
   intros p r PO x t H. destruct (xroot_eqb x r) eqn:E.
   - apply xroot_eqb_eq in E. subst x. rewrite p_get_put_same in H. discriminate.
   - rewrite p_get_put_other in H by exact E. apply (PO _ _ H).
+Qed.
+
+Lemma pend_ok_put_absent_none : forall p r, pend_ok p -> pend_ok (p_put_absent p r None).
+Proof.
+  intros p r PO. unfold p_put_absent. destruct (p_get p r); [exact PO|].
+  apply pend_ok_put_none. exact PO.
 Qed.
 
 Lemma pend_ok_put_tree : forall p t, pend_ok p -> ordered t -> sized t ->
